@@ -23,6 +23,7 @@ import (
 	"github.com/dolthub/go-mysql-server/server"
 	"github.com/dolthub/go-mysql-server/sql"
 	"github.com/dolthub/go-mysql-server/sql/variables"
+	"github.com/dolthub/go-mysql-server/verifhook"
 
 	"verif/sim/kernel"
 	"verif/sim/simnet"
@@ -67,6 +68,8 @@ type Opts struct {
 	ReadTimeout  time.Duration
 	WriteTimeout time.Duration
 	Setup        func(eng *sqle.Engine, pro *memory.DbProvider)
+	// DisableWatcher switches the disconnect watcher off (server.Config.DisableConnectionWatcher).
+	DisableWatcher bool
 }
 
 // NewWorld starts a server on a fresh simulated network. Must be called
@@ -85,12 +88,17 @@ func NewWorld(env *kernel.Env, o Opts) *World {
 	curNetMu.Lock()
 	curNet = n
 	curNetMu.Unlock()
-	cfg := server.Config{Protocol: "tcp", Address: "sim:3306", Listener: n.Listener(), ConnReadTimeout: o.ReadTimeout, ConnWriteTimeout: o.WriteTimeout}
+	cfg := server.Config{Protocol: "tcp", Address: "sim:3306", Listener: n.Listener(), ConnReadTimeout: o.ReadTimeout, ConnWriteTimeout: o.WriteTimeout,
+		DisableConnectionWatcher: o.DisableWatcher}
 	srv, err := server.NewServer(cfg, eng, sql.NewContext, memory.NewSessionBuilder(pro), nil)
 	if err != nil {
 		kernel.Harnessf("server.NewServer: %v", err)
 	}
 	w := &World{Env: env, Net: n, Pro: pro, DB: db, Eng: eng, Srv: srv, Sched: kernel.NewSched(env), start: time.Now(), done: make(chan struct{})}
+	// goroutines of the server that hit an armed yield site park under the
+	// name "<site>#<connection id>" until the scheduler resumes them
+	w.Sched.DynPark = true
+	verifhook.YieldFn = w.Sched.Yield
 	go func() {
 		_ = srv.Start()
 		close(w.done)
@@ -105,11 +113,21 @@ func (w *World) Now() time.Duration { return time.Since(w.start) }
 
 // Close shuts the server down.
 func (w *World) Close() {
+	w.ReleaseParked()
+	verifhook.YieldFn = nil
 	_ = w.Srv.Close()
 	<-w.done
 	curNetMu.Lock()
 	curNet = nil
 	curNetMu.Unlock()
+}
+
+// ReleaseParked disarms every yield site and resumes whoever is parked.
+func (w *World) ReleaseParked() {
+	w.Sched.DisarmAll()
+	for _, t := range w.Sched.ParkedTasks() {
+		t.Resume()
+	}
 }
 
 // Client is one simulated client connection driven as a scheduler task.
